@@ -4,8 +4,9 @@
    Part 3: invariants for every action => for every schedule (Conc.inv_all_schedules /
            trace_inv_all_schedules): ids_unique, count_eq, indices_agree, findable, kick order,
            no lock leak.
-   Part 4: refutations for today's code (concrete threads + schedule, vm_compute) and
-           impl = spec off the recorded triggers. *)
+   Part 4: facts about the PRE-FIX code (prefix_cfg): refutations (concrete threads + schedule,
+           vm_compute) and prefix = spec off the recorded triggers.  The code as it is now is
+           impl_cfg = spec_cfg, to which every theorem of Part 3 applies. *)
 From Coq Require Import List NArith Bool String Ascii Lia.
 From Verif Require Import Base.Conc Model.PlayerRegistry.
 Import ListNotations.
@@ -575,15 +576,15 @@ Proof.
   exact (proj2 HP).
 Qed.
 
-(* ================= Part 4: today's code ================= *)
+(* ================= Part 4: the PRE-FIX code (findings C11-1, C11-2; repaired in /repo) ================= *)
 
-(* ---- 4.1 off the recorded triggers today's functions ARE the specified ones ---- *)
+(* ---- 4.1 off the recorded triggers the pre-fix functions WERE the specified ones ---- *)
 
 Lemma unregister_off_trigger on kk p s :
   trigger_unreg p s = false ->
-  unregister (impl_cfg on kk) p s = unregister (spec_cfg on kk) p s.
+  unregister (prefix_cfg on kk) p s = unregister (spec_cfg on kk) p s.
 Proof.
-  unfold trigger_unreg, unregister, impl_cfg, spec_cfg. cbn [v_unreg].
+  unfold trigger_unreg, unregister, prefix_cfg, spec_cfg. cbn [v_unreg].
   intros H. apply orb_false_iff in H. destruct H as [Hn Hi].
   unfold get_name, get_id in *.
   pose proof (del_none_id String.eqb (lname p) (names s)) as Dn.
@@ -597,8 +598,8 @@ Proof.
 Qed.
 
 Lemma register_off_trigger on p s :
-  trigger_leak (impl_cfg on false) p s = false ->
-  register_nokick (impl_cfg on false) p s = register_nokick (spec_cfg on false) p s.
+  trigger_leak (prefix_cfg on false) p s = false ->
+  register_nokick (prefix_cfg on false) p s = register_nokick (spec_cfg on false) p s.
 Proof.
   unfold trigger_leak, register_nokick. simpl.
   destruct (get_name (lname p) s); [discriminate|].
@@ -618,7 +619,7 @@ Definition ts_dup (d : player) (c : cfg) : list (list act) :=
 Definition sched_seq : list nat := [0; 0; 0; 0; 0; 1; 1; 1; 1; 1]%nat.
 
 Lemma findable_refuted_witness :
-  let c := impl_cfg false false in
+  let c := prefix_cfg false false in
   let r := run (compile c (ts_dup alice_dup_same_uuid c)) sched_seq init in
   In (EvReg alice) (events r)
   /\ (forall p st, In (EvTeardown p st) (events r) -> p = alice_dup_same_uuid)
@@ -640,7 +641,7 @@ Qed.
 (* the same with another UUID (what offline mode produces for another spelling): the name entry is
    deleted, the id entry stays: the two indices disagree *)
 Lemma agree_refuted_witness :
-  let c := impl_cfg false false in
+  let c := prefix_cfg false false in
   let s := final_state (run (compile c (ts_dup alice_dup_other_uuid c)) sched_seq init) in
   get_id (p_id alice) s = Some alice /\ get_name (lname alice) s = None.
 Proof. vm_compute. split; reflexivity. Qed.
@@ -649,7 +650,7 @@ Proof. vm_compute. split; reflexivity. Qed.
    registerConnection fails and leaves muP locked; every later step blocks *)
 Definition sched_race : list nat := [0; 1; 0; 0; 1; 1; 1; 1; 0; 0]%nat.
 Lemma leak_refuted_witness :
-  let c := impl_cfg false false in
+  let c := prefix_cfg false false in
   let r := run (compile c (ts_dup alice_dup_same_uuid c)) sched_race init in
   leaked (final_state r) = true /\ In EvBlocked (events r).
 Proof. vm_compute. split; [reflexivity|]. auto 10. Qed.
@@ -669,7 +670,7 @@ Proof. vm_compute. repeat split; reflexivity. Qed.
    under that UUID while Alice's session was never torn down *)
 Definition carol_same_uuid : player := mkP 3 "Carol" 7.
 Lemma reg_order_refuted_witness :
-  let c := impl_cfg true true in
+  let c := prefix_cfg true true in
   let r := run (compile c [[ACan 0 alice; AReg 0 alice]; [AUnreg alice_dup_same_uuid];
                            [ACan 2 carol_same_uuid; AReg 2 carol_same_uuid]])
                [0; 0; 1; 2; 2]%nat init in
@@ -698,4 +699,84 @@ Example all_schedules_small :
     (fun s evs => negb (leaked s)
                   && list_eqb N.eqb (sortN (map (fun kv => p_obj (snd kv)) (names s))) (players_sorted s))
   = true.
+Proof. vm_compute. reflexivity. Qed.
+
+(* ================= Part 5: the code as it is now; the observed-trace checker ================= *)
+
+Lemma impl_is_spec on kk : impl_cfg on kk = spec_cfg on kk.
+Proof. reflexivity. Qed.
+
+Lemma own_removal_app q l1 l2 : own_removal q l1 -> own_removal q (l1 ++ l2).
+Proof.
+  intros [[st H]|H]; [left; exists st|right]; apply in_or_app; auto.
+Qed.
+
+(* the boolean walk used by the judge implies the Prop-level ordering property of the theorems *)
+Lemma order_ok_gen evs : forall pre livep,
+  (forall q, In (EvReg q) pre -> ~ own_removal q pre -> In q livep) ->
+  order_ok livep evs = true ->
+  forall l1 p l2, evs = l1 ++ EvReg p :: l2 ->
+  forall q, q <> p -> p_id q = p_id p -> In (EvReg q) (pre ++ l1) -> own_removal q (pre ++ l1).
+Proof.
+  induction evs as [|e r IH]; intros pre livep Hinv Hok l1 p l2 E q Hne Hid Hq.
+  - destruct l1; discriminate.
+  - destruct l1 as [|e' l1].
+    + simpl in E. inversion E; subst e r. rewrite app_nil_r in *.
+      simpl in Hok. apply andb_true_iff in Hok. destruct Hok as [Hall _].
+      destruct (own_removal_dec q pre) as [|Hn]; [assumption|]. exfalso.
+      rewrite forallb_forall in Hall. specialize (Hall q (Hinv q Hq Hn)).
+      apply orb_true_iff in Hall. destruct Hall as [H|H].
+      * apply player_eqb_spec in H. contradiction.
+      * apply negb_true_iff, N.eqb_neq in H. contradiction.
+    + simpl in E. inversion E; subst e' r. clear E.
+      replace (pre ++ e :: l1) with ((pre ++ [e]) ++ l1) in * by (rewrite <- app_assoc; reflexivity).
+      assert (Hstep : exists livep',
+                 (forall x, In (EvReg x) (pre ++ [e]) -> ~ own_removal x (pre ++ [e]) -> In x livep')
+                 /\ order_ok livep' (l1 ++ EvReg p :: l2) = true).
+      { destruct e as [p0|p0|q0 st|q0|]; simpl in Hok.
+        - apply andb_true_iff in Hok. destruct Hok as [_ Hok]. exists (p0 :: livep). split; [|exact Hok].
+          intros x Hx Hnx. apply in_app_or in Hx. destruct Hx as [Hx|[Hx|[]]].
+          + right. apply Hinv; [assumption|]. intros Hr. apply Hnx. now apply own_removal_app.
+          + inversion Hx. now left.
+        - exists livep. split; [|exact Hok].
+          intros x Hx Hnx. apply in_app_or in Hx. destruct Hx as [Hx|[Hx|[]]]; [|discriminate].
+          apply Hinv; [assumption|]. intros Hr. apply Hnx. now apply own_removal_app.
+        - exists (filter (fun x => negb (player_eqb x q0)) livep). split; [|exact Hok].
+          intros x Hx Hnx. apply in_app_or in Hx. destruct Hx as [Hx|[Hx|[]]]; [|discriminate].
+          apply filter_In. split.
+          + apply Hinv; [assumption|]. intros Hr. apply Hnx. now apply own_removal_app.
+          + apply negb_true_iff. destruct (player_eqb x q0) eqn:Ex; [|reflexivity].
+            apply player_eqb_spec in Ex. subst. exfalso. apply Hnx. left. exists st.
+            apply in_or_app. right. now left.
+        - exists (filter (fun x => negb (player_eqb x q0)) livep). split; [|exact Hok].
+          intros x Hx Hnx. apply in_app_or in Hx. destruct Hx as [Hx|[Hx|[]]]; [|discriminate].
+          apply filter_In. split.
+          + apply Hinv; [assumption|]. intros Hr. apply Hnx. now apply own_removal_app.
+          + apply negb_true_iff. destruct (player_eqb x q0) eqn:Ex; [|reflexivity].
+            apply player_eqb_spec in Ex. subst. exfalso. apply Hnx. right.
+            apply in_or_app. right. now left.
+        - exists livep. split; [|exact Hok].
+          intros x Hx Hnx. apply in_app_or in Hx. destruct Hx as [Hx|[Hx|[]]]; [|discriminate].
+          apply Hinv; [assumption|]. intros Hr. apply Hnx. now apply own_removal_app. }
+      destruct Hstep as [livep' [Hinv' Hok']].
+      eapply (IH (pre ++ [e]) livep' Hinv' Hok' l1 p l2 eq_refl q Hne Hid Hq).
+Qed.
+
+Lemma order_ok_sound evs : order_ok [] evs = true -> reg_order evs.
+Proof.
+  intros Hok l1 p l2 E q Hne Hid Hq.
+  exact (order_ok_gen evs [] [] (fun x H => match H with end) Hok l1 p l2 E q Hne Hid Hq).
+Qed.
+
+(* and the model's own traces pass the walk's premise: nothing to show beyond reg_order, which
+   reg_order_all_schedules gives for every schedule; here the executable walk on concrete runs *)
+Example order_ok_kick_flow :
+  let c := impl_cfg true true in
+  order_ok [] (events (run (compile c [login_thread c 1 0 alice; login_thread c 1 1 alice_dup_same_uuid])
+                           [0; 0; 0; 1; 1; 1; 1; 1; 1]%nat init)) = true.
+Proof. vm_compute. reflexivity. Qed.
+
+(* the walk rejects the pre-fix witness trace of reg_order_refuted_witness *)
+Example order_ok_rejects_prefix_trace :
+  order_ok [] [EvReg alice; EvUnreg alice_dup_same_uuid; EvReg carol_same_uuid] = false.
 Proof. vm_compute. reflexivity. Qed.
